@@ -3,6 +3,7 @@ package roverif
 import (
 	"context"
 	"fmt"
+	"rosim/simcontext"
 
 	"github.com/samber/ro"
 )
@@ -20,7 +21,7 @@ func init() {
 				return syncOnly(d) && !d.Waits && !d.Resub
 			})
 			sc.Sub = "sync"
-			sc.SetInt("raw", g.Intn(2))
+			sc.SetInt("raw", g.PickInt(0, 0, 1, 1, 2, 3))
 			return sc
 		},
 		Run: func(e *Env) {
@@ -82,10 +83,13 @@ func init() {
 			if g.Bool(0.3) {
 				sc.SetInt("deadctx", g.Range(1, 255))
 			}
+			// the subscription context ends (0: not; 1: before Subscribe; k: after k-1 simulated units) while the
+			// subscription stays open: a context that is over is not an unsubscription, everything still arrives
+			sc.SetInt("subctx", g.PickInt(0, 0, 0, 1, 2, 3, 4))
 			if g.Bool(0.3) {
 				addStage(g, sc, g.Pick("Map", "Filter", "Scan", "Tap"), n, "sync")
 			}
-			sc.SetInt("raw", g.Intn(2))
+			sc.SetInt("raw", g.PickInt(0, 0, 1, 1, 2, 3))
 			return sc
 		},
 		Run: func(e *Env) {
@@ -148,7 +152,17 @@ func init() {
 				}
 			}
 			// note: consumed must count at entry; Rec calls the hook after recording, inside the callback
-			e.Subscribe(o, rec.Obs(), nil)
+			if k := sc.Int("subctx", 0); k > 0 {
+				ctx, cancel := simcontext.WithCancel(context.Background())
+				if k == 1 {
+					cancel()
+				} else {
+					e.Go("canceller", func() { simSleep(dur(k - 1)); cancel() })
+				}
+				e.Subscribe(o, rec.Obs(), ctx)
+			} else {
+				e.Subscribe(o, rec.Obs(), nil)
+			}
 			e.SettleFor(200 * Unit)
 			if e.K.Capped() {
 				return
